@@ -514,7 +514,12 @@ def batches(tier, seed):
     st = nt // 14 + 1
     b += [('batch_trees', [lo, lo + st, full]) for lo in range(0, nt, st)]
     b += [('batch_lexer_contract', [lo, lo + 400]) for lo in range(0, 1400, 400)]
+    b.append(('batch_dups', []))
     return b
+
+
+def _noop():
+    pass
 
 
 def info(tier):
@@ -528,3 +533,16 @@ def info(tier):
                      'bounds': {'shapes': 'N<=%d' % (4 if tier == 'quick' else 5), 'name_len': 3 if tier == 'quick' else 4},
                      'stubs': ['UVL lexer (contract: piece lexed as one token of the class, validated natively)', 'file write / FileStream (exercised for real in the native batches and replays)']},
     }
+
+
+def replay_dups(k):
+    """near-duplicate constraints (repeated literally / differing by letter case of a name) through the real files."""
+    m = rt.dup_models()[k]
+    try:
+        return ['%s | constraints %r' % (b[:400], rt.DUP_CTC_SETS[k]) for b in uvlio.file_roundtrip(m)]
+    except Exception as exc:
+        return ['round trip raises %s: %s (constraints %r)' % (type(exc).__name__, exc, rt.DUP_CTC_SETS[k])]
+
+
+def batch_dups():
+    return rt.dup_batch(__name__, 'uvl-duplicate-constraints')
